@@ -7,6 +7,11 @@ names = sys.argv[1:] or sorted(d for d in os.listdir(ROOT + "/seeded") if os.pat
 resp = ROOT + "/seeded/RESULTS.json"
 res = json.load(open(resp)) if os.path.exists(resp) else {}
 assert subprocess.run(["git", "-C", "/repo", "status", "--short", "--untracked-files=no"], capture_output=True, text=True).stdout.strip() == "", "/repo dirty"
+# the evidence files must describe runs on the UNCHANGED tree: keep them aside while the seeded changes are applied
+import shutil, tempfile
+ev_backup = tempfile.mkdtemp(prefix="asv-evidence-")
+for f in os.listdir(ROOT + "/evidence"):
+    shutil.copy2(ROOT + "/evidence/" + f, ev_backup)
 for n in names:
     d = ROOT + "/seeded/" + n
     meta = json.load(open(d + "/meta.json"))
@@ -35,5 +40,8 @@ for n in names:
     finally:
         subprocess.run(["git", "-C", "/repo", "checkout", "--", "."])
     json.dump(res, open(resp, "w"), indent=1)
+for f in os.listdir(ev_backup):
+    shutil.copy2(ev_backup + "/" + f, ROOT + "/evidence/" + f)
+shutil.rmtree(ev_backup)
 # leave the build in the state of the unchanged tree
 subprocess.run([sys.executable, "-c", "import sys; sys.path.insert(0,'%s/tools'); import vlib; vlib.build_all()" % ROOT])
